@@ -1,5 +1,6 @@
 """Triage only (not a check).  Run with the pre-built extension copy:
 PYTHONPATH=/repo/build/lib.linux-x86_64-cpython-312 /venv/bin/python <this file>"""
+import _overlay
 import numpy as np, os, tempfile
 from pysph.base.utils import get_particle_array
 from pysph.base.nnps import DomainManager, LinkedListNNPS
